@@ -15,6 +15,7 @@ import DialsModel.Lemmas.Parse
 import DialsModel.Lemmas.Scan
 import DialsModel.Lemmas.Duration
 import DialsModel.Lemmas.ScanWords
+import DialsModel.Lemmas.ScanTable
 
 namespace Dials.C15
 open Dials Dials.Parse
@@ -373,6 +374,53 @@ theorem C15_bare_words_examples :
     mapText "a:b:c".toList = some (.err "unexpected colon") ∧
     sliceText "a,\"b,c\",d".toList = some (.ok ["a".toList, "b,c".toList, "d".toList]) := by
   refine ⟨by decide, by decide, by decide, by decide, by decide⟩
+
+/-! ### parse.String on a slice leaf, end to end on the models (the path of an environment variable or flag value) -/
+
+/-- `parse.String(text, []K)` for every integer kind K: the comma-joined decimal texts of in-range values - scanned by the
+scanner model as bare words, split, each cast by parseNumber with K's width - give exactly those values; the empty text
+gives the empty slice. -/
+theorem C15_parse_string_int_slice (k : IntKind) (hk : k ≠ .uintptr) (vs : List Int) (hv : ∀ v ∈ vs, k.inRange v = true) :
+    Tf.parseString Tf.scanTable (String.ofList (joinComma (vs.map formatInt))) (.slice (.basic (.int k) false))
+      = .ok (.list (vs.map .i)) := by
+  have hwords : ∀ w ∈ vs.map formatInt, BareWord false w := by
+    intro w hw
+    obtain ⟨v, _, rfl⟩ := List.mem_map.1 hw
+    exact formatInt_bareWord false v
+  have htext := C15_bare_words_text (vs.map formatInt) hwords
+  have hk' : (k == IntKind.uintptr) = false := by cases k <;> simp_all
+  cases vs with
+  | nil => simp [Tf.parseString, joinComma, stringSlice, Tf.isPlainString, Tf.mapM']
+  | cons x xs =>
+    have hne : (joinComma ((x :: xs).map formatInt)) ≠ [] := by
+      obtain ⟨c, r, _, _, hc, _, _, _⟩ := formatInt_shape x
+      cases xs <;> simp [joinComma, hc]
+    have hstr : (String.ofList (joinComma ((x :: xs).map formatInt)) == "") = false := by
+      rw [beq_eq_false_iff_ne]
+      intro h
+      have := congrArg String.toList h
+      simp at this
+      exact hne this
+    have hisE : (joinComma ((x :: xs).map formatInt)).isEmpty = false := by
+      cases hj : joinComma ((x :: xs).map formatInt) with
+      | nil => exact absurd hj hne
+      | cons _ _ => rfl
+    -- the scanner model's tokens, then the slice state machine
+    simp only [sliceText, hisE, Bool.false_eq_true, if_false, Option.map_eq_some_iff] at htext
+    obtain ⟨toks, hscan, hsplit⟩ := htext
+    have hitems : ∀ it ∈ (x :: xs).map formatInt,
+        (match (Tf.Ty.basic (.int k) false) with
+          | .slice _ | .map _ _ | .set _ => (Outcome.err "nested collection: outside the model" : Outcome Tf.Val)
+          | _ => (Tf.parseScalar (String.ofList it) (.basic (.int k) false)).bind Tf.derefVal)
+          = .ok ((fun w => Tf.Val.i ((parseIntLit w).getD 0)) it) := by
+      intro it hit
+      obtain ⟨v, hvm, rfl⟩ := List.mem_map.1 hit
+      have hr := C15_int_roundtrip k hk v (hv v hvm)
+      simp [Tf.parseScalar, hk', hr, Tf.derefVal, Outcome.bind, parseIntLit_formatInt]
+    simp only [Tf.parseString, Tf.scanTable, String.toList_ofList, hscan, Option.getD_some, hstr, hsplit, Tf.isPlainString,
+      Bool.false_eq_true, if_false]
+    rw [Tf.mapM'_ok _ _ _ hitems]
+    simp [List.map_map, Function.comp_def, parseIntLit_formatInt]
 
 /-! ### durations and bools (models of time.Duration.String, time.ParseDuration, strconv.ParseBool; tied by stream 10) -/
 
